@@ -140,6 +140,37 @@ Proof.
   intros HkH HkW Hr. rewrite <- (C17_dense_builder_represents_operator psf x r Hr).
   apply rmv_ext. intros l Hl. now apply C17_builders_agree.
 Qed.
+(* --- the matrix path run on the explicit matrix and the FFT path give the same restoration --- *)
+Theorem C17_matrix_path_equals_fft_path Bq psf lam c :
+  (forall u v, kre (psf u v) = psf u v) -> real (Bq c) -> kre lam = lam ->
+  (forall u v, (u < H)%nat -> (v < W)%nat -> kabs2 (F (PADK psf) u v) + lam <> c0) ->
+  let A := gen_build_bccb_matrix K H W kH kW psf in
+  let T' := if keq0 lam then rmm (H * W) (rmT A) A else Tmat A lam in
+  (forall i j, (i < H * W)%nat -> (j < H * W)%nat -> rmm (H * W) T' (pinv (H * W)%nat T') i j = rmid i j) ->
+  (forall i j, (i < H * W)%nat -> (j < H * W)%nat -> rmm (H * W) (pinv (H * W)%nat T') T' i j = rmid i j) ->
+  gen_restore_matrix K keq0 pinv H W Bq A lam c =w gen_restore_fft K kconj kre kabs2 kdiv fft2 ifft2 H W kH kW Bq psf lam c.
+Proof.
+  intros Rp Rb Rl Hd A T' Hr Hl.
+  set (Xm := gen_restore_matrix K keq0 pinv H W Bq A lam c). set (Xf := gen_restore_fft K kconj kre kabs2 kdiv fft2 ifft2 H W kH kW Bq psf lam c).
+  assert (ET : forall i j, T' i j = Tmat A lam i j).
+  { intros i j. unfold T'. destruct (keq0 lam) eqn:E; [|reflexivity]. apply keq0_spec in E. rewrite E. unfold Tmat, rmadd, rmscale. ring. }
+  assert (Em : forall r, (r < H * W)%nat -> rmv (H * W) (Tmat A lam) (vec Xm) r = rmv (H * W) (rmT A) (vec (Bq c)) r).
+  { intros r Hr'. exact (C17_restore_matrix_solves_normal_equations Bq A lam c Hr r Hr'). }
+  assert (Ef : forall r, (r < H * W)%nat -> rmv (H * W) (Tmat A lam) (vec Xf) r = rmv (H * W) (rmT A) (vec (Bq c)) r).
+  { intros r Hr'. destruct (divmod_lt r H W Hr') as (Hi & Hj & W0).
+    unfold Tmat. rewrite rmv_add, rmv_scale_id by exact Hr'. rewrite rmv_rmm.
+    rewrite (rmv_ext_v K (H * W) (rmT A) _ (vecW W (Aop psf Xf)) r) by (intros l Hl'; exact (C17_dense_builder_represents_operator psf Xf l Hl')).
+    change A with (bccb H W (PADK psf)). rewrite (bccbT_is_ccorr K H W (PADK psf) (Aop psf Xf) r Hr').
+    change (vec (Bq c)) with (vecW W (Bq c)). rewrite (bccbT_is_ccorr K H W (PADK psf) (Bq c) r Hr').
+    pose proof (C17_restore_fft_solves_normal_equations Bq psf lam c Rp Rb Rl Hd (r / W)%nat (r mod W)%nat Hi Hj) as P.
+    unfold rmadd, rmscale, ATop in P. exact P. }
+  assert (Ex : forall r, (r < H * W)%nat -> vec Xm r = vec Xf r).
+  { apply (left_inverse_unique K (H * W) (Tmat A lam) (pinv (H * W)%nat T')).
+    - intros i j Hi Hj. rewrite <- (Hl i j Hi Hj). unfold rmm. apply sumR_ext; intros l _. now rewrite ET.
+    - intros r Hr'. now rewrite Em, Ef. }
+  intros i j Hi Hj. assert (Hrr : (i * W + j < H * W)%nat) by nia.
+  specialize (Ex (i * W + j)%nat Hrr). unfold vec in Ex. rewrite (dm_div' i W j Hj), (dm_mod' i W j Hj) in Ex. exact Ex.
+Qed.
 End S.
 
 Print Assumptions C17_ATop_is_transpose.
@@ -151,6 +182,7 @@ Print Assumptions C17_restore_matrix_solves_normal_equations.
 Print Assumptions C17_dense_builder_represents_operator.
 Print Assumptions C17_builders_agree.
 Print Assumptions C17_csr_builder_represents_operator.
+Print Assumptions C17_matrix_path_equals_fft_path.
 
 (* ------------------------------------------------------------------------------------------------
    The contract is satisfiable, and by the transform NumPy documents: with K the complex numbers (pairs of reals) and
@@ -202,8 +234,29 @@ Proof.
   unfold xabs2 in E2. apply xmul_integral in E2; [|exact Hn]. apply Hn.
   rewrite <- (xconj_invol (dft H W (PADK CxR H W kH kW psf) u v)), E2. unfold xconj, x0. cbn [fst snd]. f_equal. lra.
 Qed.
+Definition xeq0 (z : Cx) : bool := if Req_EM_T (fst z) 0 then (if Req_EM_T (snd z) 0 then true else false) else false.
+Lemma xeq0_spec z : xeq0 z = true -> z = x0.
+Proof. destruct z as [p q]. unfold xeq0, x0. cbn [fst snd]. destruct (Req_EM_T p 0), (Req_EM_T q 0); intros E; try discriminate. now subst. Qed.
+(* matrix path on the dense builder's matrix = FFT path, for the transform itself, any pseudo-inverse routine that inverts the
+   (positive definite) matrix A^T A + l I on both sides *)
+Theorem C17_matrix_path_equals_fft_path_DFT (pinv : nat -> rmat CxR -> rmat CxR) Bq psf l c :
+  (forall u v, xre (psf u v) = psf u v) -> realimg (Bq c) -> (0 < l)%R ->
+  let A := gen_build_bccb_matrix CxR H W kH kW psf in
+  let T' := if xeq0 (ofR l) then rmm (H * W) (rmT A) A else Tmat CxR H W A (ofR l) in
+  (forall i j, (i < H * W)%nat -> (j < H * W)%nat -> rmm (H * W) T' (pinv (H * W)%nat T') i j = rmid i j) ->
+  (forall i j, (i < H * W)%nat -> (j < H * W)%nat -> rmm (H * W) (pinv (H * W)%nat T') T' i j = rmid i j) ->
+  weq H W (gen_restore_matrix CxR xeq0 pinv H W Bq A (ofR l) c) (gen_restore Bq psf (ofR l) c).
+Proof.
+  intros Rp Rb Hl A T' Hr Hli.
+  apply (C17_matrix_path_equals_fft_path CxR xconj xre xabs2 xdiv xeq0 (fun H W => dft H W) (fun H W => idft H W) pinv H W kH kW
+           (idft_w H W) (idft_dft H W) (dft_idft H W) (dft_add H W) (dft_scale H W) (dft_conv H W) (dft_corr H W)
+           (fun z => eq_refl) xdiv_mul xre_0 xre_add xre_scale xeq0_spec); try assumption.
+  - reflexivity.
+  - intros u v _ _. now apply xabs2_plus_pos.
+Qed.
 End Inst.
 
 Print Assumptions C17_blur_fft_is_documented_operator_DFT.
 Print Assumptions C17_restore_fft_solves_normal_equations_DFT.
 Print Assumptions C17_restore_fft_inverts_blur_DFT.
+Print Assumptions C17_matrix_path_equals_fft_path_DFT.
